@@ -116,7 +116,45 @@ func randCase(r *hx.Rand, d stats.DistCommon, params, tag string) {
 	id++
 }
 
+// nrandCase: NormalDist.Rand with a seeded source against the same stream of standard normal
+// variates drawn from an identically seeded source: v = z*Sigma + Mu, bit for bit.
+func nrandCase(r *hx.Rand, mu, sigma float64) {
+	seed := int64(r.U64() >> 1)
+	a, b := rand.New(rand.NewSource(seed)), rand.New(rand.NewSource(seed))
+	d := stats.NormalDist{Mu: mu, Sigma: sigma}
+	n := 40
+	zs, vs := make([]float64, n), make([]float64, n)
+	nilbad := 0
+	ok := guard("nrand", func() {
+		for k := 0; k < n; k++ {
+			zs[k] = b.NormFloat64()
+			vs[k] = d.Rand(a)
+		}
+		for k := 0; k < 20; k++ { // documented nil source: finiteness only
+			if v := d.Rand(nil); math.IsNaN(v) || math.IsInf(v, 0) {
+				nilbad++
+			}
+		}
+	})
+	hx.Printf("case %d kind=nrand mu=%s sigma=%s zs=%s vs=%s nilbad=%d tag=nrand\n", id, fb(mu), fb(sigma), fbList(zs), fbList(vs), nilbad)
+	if ok {
+		hx.Printf("obs %d v=%s\n", id, fbList(vs))
+		hx.Printf("sobs %d rand=ok\n", id)
+	}
+	id++
+}
+
 func reuseCases(r *hx.Rand) {
+	for i := 0; i < 6; i++ {
+		if i%nshards == shard {
+			mu, sigma := 0.0, 1.0
+			if i > 0 {
+				mu = (r.Float() - 0.5) * math.Pow(10, r.Float()*6-3)
+				sigma = math.Pow(10, r.Float()*8-4)
+			}
+			nrandCase(r, mu, sigma)
+		}
+	}
 	type entry struct {
 		d      stats.DistCommon
 		params string
